@@ -47,6 +47,9 @@ TUnwrap == /\ IsEvent("unwrap") /\ keyOk
                  ELSE /\ e.res = "err" /\ e.plain = <<>> /\ UNCHANGED s2c
            /\ UNCHANGED <<c2s, keyOk>>
 
-TNext == TReset \/ TAuth \/ TCtx \/ TWrap \/ TUnwrap
+\* a token that was refused is refused again when it is presented a second time to the same context (whether the refusal
+\* came before or after the decryption: nothing a refused token did may make it acceptable)
+TUnwrapAgain == IsEvent("unwrap_again") /\ Rec[l].res = "err" /\ UNCHANGED <<c2s, s2c, keyOk>>
+TNext == TReset \/ TAuth \/ TCtx \/ TWrap \/ TUnwrap \/ TUnwrapAgain
 TSpec == TInit /\ [][TNext]_tvars
 =============================================================================
